@@ -204,6 +204,16 @@ def run_case(ctx, k, rng):
         return
     ctx.check("constructs", isinstance(depths, list), got=type(depths).__name__)
     judge(ctx, bars, depths, copies)
+    if rng.random() < 0.05:
+        ib, fb, dn = vforms.near_limit_int_diagram(rng, int(rng.integers(1, 7)))
+        ctx.set_payload({"bars": ib, "dtype": dn, "hom_deg": 0})
+        try:
+            dn_, cn_ = build(ctx, [ib], 0)
+            judge(ctx, fb, dn_, cn_, tag=" [narrow integer dtype near its limits]")
+            ctx.note("form:near-limit:" + dn)
+        except Exception as e:
+            ctx.exception("constructs [narrow integer dtype near its limits]", e, dtype=dn)
+        ctx.set_payload({"bars": bars, "hom_deg": hom})
     sub = int(rng.integers(0, 4))
     if sub == 0 and hom > 0:
         # the same bars as degree 0 must give the same landscape: hom_deg only selects
@@ -225,7 +235,9 @@ def run_case(ctx, k, rng):
             ctx.exception("one trailing infinite bar ignored", e)
     elif sub == 3 and np.all(bars == np.round(bars)) and np.max(np.abs(bars)) < 2 ** 40:
         # container / dtype of the input: integer array, nested list of python ints, float32 array of the same values
-        for form, arg in (("int64", bars.astype(np.int64)), ("list", bars.astype(np.int64).tolist()), ("float32", bars.astype(np.float32))):
+        narrow, ndt = vforms.as_int_dtype(rng, bars, narrow_bias=1.0)
+        for form, arg in (("int64", bars.astype(np.int64)), ("list", bars.astype(np.int64).tolist()), ("float32", bars.astype(np.float32)),
+                          ("narrow integer", narrow)):
             if form == "float32" and (np.max(np.abs(bars)) >= 2 ** 20 or not np.array_equal(bars.astype(np.float32).astype(float), bars)):
                 continue        # single precision: only judged where sums and half-sums of the coordinates are exact in 24 bits
             try:
